@@ -19,8 +19,8 @@ open Ark Ark.Par
 variable {F : Type} [Field F] [DecidableEq F]
 
 /-- for the non-vacuity examples over `ZMod 17` / `ZMod 13` -/
-instance : Fact (Nat.Prime 17) := ⟨by norm_num⟩
-instance : Fact (Nat.Prime 13) := ⟨by norm_num⟩
+instance : Fact (Nat.Prime 17) := ⟨by decide⟩
+instance : Fact (Nat.Prime 13) := ⟨by decide⟩
 
 /-! ## 0. `Field::pow([e])` -/
 
@@ -103,7 +103,7 @@ theorem distributePowers_chunks (k : Nat) (hk : 1 ≤ k) (coeffs : List F) (g c 
       (fun (x : Nat × List F) => distributePowersSerial x.2 g (c * pow g (x.1 * k)))).flatten
       = distributePowersSerial coeffs g c := by
   have h := dps_chunks k hk g c coeffs.length coeffs 0 (Nat.le_refl _)
-  simpa using h
+  simpa [Par.chunks] using h
 
 example : distributePowersPar 3 ([1, 2, 3, 4] : List (ZMod 17)) 2 5 = [5, 3, 9, 7] := by
   rw [distributePowersPar_spec]; decide +kernel
